@@ -2152,6 +2152,108 @@ def swapped_out_local(tu, f, g, F, al, e, loop):
     return lp is not None and sp is not None and g.dominates(sp, lp)
 
 
+def null_slot_break(tu, body, loopvar):
+    """the condition of `if (<element is null>) break;` inside the loop body, else None"""
+    for x in tu.walk(body):
+        if x.get('kind') == 'IfStmt' and len(tu.kids(x)) == 2:
+            c, then = tu.kids(x)
+            t_ = tu.strip(then)
+            while t_ is not None and t_.get('kind') == 'CompoundStmt' and len(tu.kids(t_)) == 1:
+                t_ = tu.strip(tu.kids(t_)[0])
+            if t_ is None or t_.get('kind') != 'BreakStmt':
+                continue
+            c0, neg = tu.strip(c, casts=True), False
+            while c0 is not None and c0.get('kind') == 'UnaryOperator' and c0.get('opcode') == '!':
+                neg = not neg
+                c0 = tu.strip(tu.kids(c0)[0], casts=True)
+            if c0 is not None and neg and tu.ref_decl(c0) == loopvar['id']:
+                return c
+            if c0 is not None and c0.get('kind') == 'BinaryOperator' and c0.get('opcode') == '==' and not neg:
+                l, r = tu.kids(c0)
+                if (tu.ref_decl(l) == loopvar['id'] and null_literal(tu, r)) or (tu.ref_decl(r) == loopvar['id'] and null_literal(tu, l)):
+                    return c
+    return None
+
+
+def slots_nulled_in_place(tu, F):
+    """name of an Observable member that assigns nullptr through an iterator obtained from std::find on the observer list
+    (frees a slot in the middle of the list instead of erasing it), else None"""
+    for f in tu.functions.values():
+        if f.get('rec') != OBSV or f['dep'] or tu.body(f) is None:
+            continue
+        al = list_aliases(tu, f, F)
+        finds = set()
+        for x in tu.walk(tu.body(f)):
+            if x.get('kind') == 'VarDecl' and tu.kids(x):
+                fi = unwrap_iter(tu, tu.kids(x)[-1])
+                if fi is not None and fi.get('kind') == 'CallExpr' and tu.sd(fi).get('q') == 'std::find':
+                    s_, o_, fa = tu.call_parts(fi)
+                    if len(fa) == 3 and is_list_end(tu, fa[0], F, al, ('begin', 'cbegin')) and not null_literal(tu, fa[2]):
+                        finds.add(x['id'])
+        for x in tu.walk(tu.body(f)):
+            if x.get('kind') == 'BinaryOperator' and x.get('opcode') == '=' and null_literal(tu, tu.kids(x)[1]):
+                lhs = tu.strip(tu.kids(x)[0], casts=True)
+                if lhs is not None and lhs.get('kind') == 'CXXOperatorCallExpr' and tu.sd(lhs).get('q', '').split('::')[-1] == 'operator*' \
+                        and tu.kids(lhs)[1:] and tu.ref_decl(tu.kids(lhs)[1]) in finds:
+                    return fn_name(f).split(' ')[0]
+    return None
+
+
+def check_front_pop_back(ctx, tu):
+    """R-C19-1 idiom rule that needs no model of the members: an Observable member that takes an entry from the FRONT of a
+    std::vector<Observer*> member (front(), [0], *begin()) and then removes the BACK (pop_back()) on the same path, without
+    erasing the front: for a list of more than one entry the taken entry stays listed and the last one is dropped"""
+    R1 = 'R-C19-1'
+    for f in sorted(tu.functions.values(), key=lambda x: (x['f'], x['l'])):
+        if f.get('rec') != OBSV or f['dep'] or tu.cfg(f) is None:
+            continue
+        g = tu.cfg(f)
+
+        def on_list(e):
+            e = tu.strip(e, casts=True)
+            if e is None:
+                return False
+            if e.get('kind') == 'DeclRefExpr':        # local reference to a member list
+                vd = tu.node(e.get('referencedDecl', {}).get('id'))
+                return vd is not None and vd.get('kind') == 'VarDecl' and '&' in vd.get('type', {}).get('qualType', '') and \
+                    init_exprs(tu, vd) and on_list(init_exprs(tu, vd)[-1])
+            return e.get('kind') == 'MemberExpr' and re.match(r'std::vector<rkcommon::utility::Observer \*', tu.sd(e).get('ct') or '') is not None \
+                and tu.sd(e).get('rec') == OBSV
+        takes, pops, erases = [], [], []
+        for b, i, x in g.stmts():
+            if x.get('kind') in ('CXXMemberCallExpr', 'CXXOperatorCallExpr'):
+                sd, obj, args = tu.call_parts(x)
+                nm = sd.get('q', '').split('::')[-1]
+                if obj is None or not on_list(obj):
+                    continue
+                if nm == 'front' or (nm in ('operator[]', 'at') and args and tu.sd(tu.strip(args[0])).get('cv') == '0'):
+                    par = tu.par(x)
+                    hops = 0
+                    while par is not None and par.get('kind') in ('ImplicitCastExpr', 'ParenExpr') and hops < 4:
+                        par = tu.par(par)
+                        hops += 1
+                    if par is not None and ((par.get('kind') == 'BinaryOperator' and par.get('opcode') == '=' and
+                                             tu.strip(tu.kids(par)[1], casts=True) is not None and tu.strip(tu.kids(par)[1], casts=True)['id'] == x['id'])
+                                            or par.get('kind') == 'VarDecl'):
+                        takes.append(x)
+                elif nm == 'pop_back':
+                    pops.append(x)
+                elif nm in ('erase', 'pop_front', 'clear'):
+                    erases.append(x)
+        for tk in takes:
+            for pp in pops:
+                between = [e_ for e_ in erases if g.where(e_['id']) and g.dominates(g.where(tk['id']), g.where(e_['id']))
+                           and g.dominates(g.where(e_['id']), g.where(pp['id']))]
+                if g.where(tk['id']) and g.where(pp['id']) and g.dominates(g.where(tk['id']), g.where(pp['id'])) and not between:
+                    inst = fn_name(f)
+                    ctx.violation(R1, inst, '%s takes the entry `%s` from the FRONT of the observer list and then removes the BACK with pop_back(): '
+                                  'with more than one entry the promoted observer stays in the list (listed twice) and the last registered '
+                                  'observer is silently dropped - it is no longer orphaned by ~Observable and keeps a dangling observee '
+                                  'pointer (take back(), or erase(begin()))' % (inst.split(' ')[0], tu.show(tk)), tu.loc(pp),
+                                  key='%s|%s|%s|takes-front-pops-back' % (R1, tu.fn_file(f), inst))
+                    return
+
+
 def range_for_orphans(tu, f, g, loop, F, al):
     ks = tu.kids(loop)
     # children of CXXForRangeStmt: [init] range-decl begin-decl end-decl cond inc loopvar-decl body
@@ -2218,6 +2320,14 @@ def range_for_orphans(tu, f, g, loop, F, al):
     if lv_pos is None or a_pos is None:
         return ('undecided', 'cannot locate the loop body in the CFG')
     if not g.postdominates(a_pos, lv_pos):
+        brk = null_slot_break(tu, body, loopvar)
+        holes = slots_nulled_in_place(tu, F)
+        if brk is not None and holes is not None:
+            return ('violation', 'orphaning-stops-at-free-slot',
+                    '~Observable leaves its orphaning loop at the first null entry (`%s` ... break), but %s writes nullptr into a slot it found '
+                    'with std::find, i.e. anywhere in the list: every observer registered behind such a free slot is never orphaned, keeps its '
+                    'observee pointer and dangles once the observable is gone (skip the free slot with `continue` instead)'
+                    % (tu.show(brk), holes))
         return ('undecided', 'the assignment of null is not executed for every element (conditional / early exit in the loop)')
     for x in tu.walk(body):
         if x.get('kind') in ('BreakStmt', 'ReturnStmt', 'GotoStmt', 'CXXThrowExpr'):
@@ -3274,6 +3384,7 @@ def run(ctx):
     ctx.describe('R-C19-4', 'copy/move of Observer and Observable keep the registration invariant (deleted, or user-provided and analysed); '
                             'implicit memberwise copies are rejected')
     ctx.describe('R-C19-5', 'every function naming the anchored members is an analysed member')
+    check_front_pop_back(ctx, tu)
     F = Fields(tu)
     if not F.ok:
         ctx.undecided('R-C19-1', 'Observer/Observable', F.why, HDR_O)
